@@ -3,6 +3,7 @@
 -/
 import PCV.Proofs.MarlinMore
 import PCV.Props.C01_Marlin
+import PCV.Props.C07_Marlin
 set_option linter.unusedSectionVars false
 
 namespace PCV.C08
@@ -34,7 +35,68 @@ theorem marlin_shifted_window (g β : F) (D d : Nat) (p : List F) (hd : d ≤ D)
   rw [this]
   exact dot_powers_shift p g β (D - d) (d + 1) hp
 
+/-- **Homomorphism (non-hiding, plain and shifted parts).** For keys from `trim`: if `p`, `q` and
+`a·p + b·q` are committed without hiding under the same degree bound, then
+`commit(a·p + b·q) = a·commit(p) + b·commit(q)` — for the plain part and for the shifted part. -/
+theorem marlin_commit_homomorphic {ck : CK F} {vk : VK F} {g γ β h : F} {D n m : Nat}
+    (hwf : WF ck vk g γ β h D n m) (lp lq ll : Label) (p q : List F) (a b : F) (bound : Option Nat)
+    (rng : Bool) (dr₁ dr₂ dr₃ : List F) (cp cq cl : Comm F) (rp rq rl : Rand F) (r₁ r₂ r₃ : List F)
+    (hp : commitOne ck ⟨lp, p, bound, none⟩ rng dr₁ = .ok (cp, rp, r₁))
+    (hq : commitOne ck ⟨lq, q, bound, none⟩ rng dr₂ = .ok (cq, rq, r₂))
+    (hl : commitOne ck ⟨ll, padd (pscale a p) (pscale b q), bound, none⟩ rng dr₃ = .ok (cl, rl, r₃)) :
+    cl.comm = a * cp.comm + b * cq.comm ∧
+    (∀ sp sq sl, cp.shifted = some sp → cq.shifted = some sq → cl.shifted = some sl →
+      sl = a * sp + b * sq) := by
+  obtain ⟨⟨_, p2, p3, p4, p5⟩, _⟩ := commitOne_honest hwf _ rng dr₁ cp rp r₁ hp
+  obtain ⟨⟨_, q2, q3, q4, q5⟩, _⟩ := commitOne_honest hwf _ rng dr₂ cq rq r₂ hq
+  obtain ⟨⟨_, l2, l3, l4, l5⟩, _⟩ := commitOne_honest hwf _ rng dr₃ cl rl r₃ hl
+  obtain ⟨np1, np2, _⟩ := C07.marlin_nonhiding_no_blinding ck _ rng dr₁ cp rp r₁ rfl hp
+  obtain ⟨nq1, nq2, _⟩ := C07.marlin_nonhiding_no_blinding ck _ rng dr₂ cq rq r₂ rfl hq
+  obtain ⟨nl1, nl2, _⟩ := C07.marlin_nonhiding_no_blinding ck _ rng dr₃ cl rl r₃ rfl hl
+  simp only at p2 q2 l2 p3 q3 l3 p5 q5 l5
+  constructor
+  · rw [l2, p2, q2, np1, nq1, nl1]
+    simp only [eval_padd, eval_pscale, evalPoly_nil, mul_zero, add_zero]
+    ring
+  · intro sp sq sl hsp hsq hsl
+    cases hb : bound with
+    | none =>
+      rw [hb] at p4; rw [hsp] at p4; simp at p4
+    | some d =>
+      rw [hb] at p3 q3 l3 p5 q5 l5
+      cases hrp : rp.shifted with
+      | none => rw [hrp] at p3; simp at p3
+      | some rsp =>
+        cases hrq : rq.shifted with
+        | none => rw [hrq] at q3; simp at q3
+        | some rsq =>
+          cases hrl : rl.shifted with
+          | none => rw [hrl] at l3; simp at l3
+          | some rsl =>
+            rw [p5 d rsp sp rfl hrp hsp, q5 d rsq sq rfl hrq hsq, l5 d rsl sl rfl hrl hsl,
+              np2 rsp hrp, nq2 rsq hrq, nl2 rsl hrl]
+            simp only [eval_padd, eval_pscale, evalPoly_nil, mul_zero, add_zero]
+            ring
+
+/-- the zero polynomial commits to the identity (plain part), whatever label and bound -/
+theorem marlin_commit_zero {ck : CK F} {vk : VK F} {g γ β h : F} {D n m : Nat}
+    (hwf : WF ck vk g γ β h D n m) (l : Label) (bound : Option Nat) (rng : Bool) (dr : List F)
+    (c : Comm F) (r : Rand F) (rest : List F)
+    (hc : commitOne ck ⟨l, [], bound, none⟩ rng dr = .ok (c, r, rest)) : c.comm = 0 := by
+  obtain ⟨⟨_, h2, _, _, _⟩, _⟩ := commitOne_honest hwf _ rng dr c r rest hc
+  obtain ⟨n1, _, _⟩ := C07.marlin_nonhiding_no_blinding ck _ rng dr c r rest rfl hc
+  simp only at h2
+  rw [h2, n1]; simp
+
 example : commitOne C01.exCK C01.exPoly true [7, 8, 9, 4, 5, 6]
     = .ok (⟨43, some 90⟩, ⟨[7, 8, 9], some [4, 5, 6]⟩, []) := by decide
+
+/-- non-vacuity of the homomorphism: `5·(1+2X) + 7·(3+X²)` under the bound 2 on the example key:
+`5·15 + 7·21 = 20`, `5·30 + 7·42 = 40` in `ZMod 101` -/
+example : commitOne C01.exCK ⟨[1], [1, 2], some 2, none⟩ false [] = .ok (⟨15, some 30⟩, ⟨[], some []⟩, []) ∧
+    commitOne C01.exCK ⟨[2], [3, 0, 1], some 2, none⟩ false [] = .ok (⟨21, some 42⟩, ⟨[], some []⟩, []) ∧
+    commitOne C01.exCK ⟨[3], padd (pscale 5 [1, 2]) (pscale 7 [3, 0, 1]), some 2, none⟩ false []
+      = .ok (⟨20, some 40⟩, ⟨[], some []⟩, []) ∧
+    (5 * 15 + 7 * 21 : K) = 20 ∧ (5 * 30 + 7 * 42 : K) = 40 := by decide
 
 end PCV.C08
